@@ -155,6 +155,27 @@ def reused_analysis_object(ctx, rng):
     sym = {"A": A, "B": B, "C": C}
     f = {"A": -kb * A * B + 1.0 * C + 2.0 * (C / 2.0) ** 2 / (1 + (C / 2.0) ** 2) - 0.3 * A, "B": -kb * A * B + 1.0 * C, "C": kb * A * B - 1.0 * C}
     x = np.array([2.0, 3.0, 1.5])
+    # the same sweep through the module-level functions (the model object stays the same, its parameters change)
+    from bioscrape.analysis import py_get_jacobian, py_get_sensitivity_to_parameter
+    for kb_now in (0.5, 2.0, 0.25):
+        M.set_params({"kb": kb_now})
+        subs = {sym[s_]: float(v_) for s_, v_ in zip(sl, x)}
+        subs[kb] = kb_now
+        for method in METHODS[:2]:
+            case = {"scenario": "module-level functions across set_params on one model", "kb": kb_now, "method": method}
+            ctx.begin_case(case)
+            Z = np.array(py_get_sensitivity_to_parameter(M, x.copy(), "kb", method=method)).flatten()
+            J = np.array(py_get_jacobian(M, x.copy(), method=method))
+            ctx.evaluated()
+            Zt = np.array([float(sympy.diff(f[si], kb).subs(subs)) for si in sl])
+            Jt = np.array([[float(sympy.diff(f[si], sym[sj]).subs(subs)) for sj in sl] for si in sl])
+            now = float(dict(M.get_parameter_dictionary())["kb"])
+            if np.max(np.abs(Z - Zt)) > 1e-3 or np.max(np.abs(J - Jt)) > 1e-3 or now != kb_now:
+                ctx.violation("sensitivity/after-set-params/" + method, "kb set to %g on a model analysed before: d f / d kb = %s (analytic %s), max |J - analytic| = %g, kb after the calls = %g"
+                              % (kb_now, Z.tolist(), Zt.tolist(), float(np.max(np.abs(J - Jt))), now), case)
+                return
+            ctx.count("wrapper_sweep_cases")
+    M.set_params({"kb": 0.5})
     sa = SensitivityAnalysis(M)
     for kb_now in (0.5, 1.0, 4.0):
         M.set_params({"kb": kb_now})
